@@ -1,4 +1,5 @@
 import EV.Proofs.System
+import EV.Proofs.SystemFix
 import EV.Props.C07carrier
 
 /-!
@@ -17,8 +18,8 @@ namespace EV.System
 
 /-- **C10 (invariant).**  In every reachable state every cached history belongs to a version that is
 current, or whose script hash is still owed a `_notify_sessions` pass that will drop the entry (still
-carried, or in the touched set of a call suspended in its header read; or the pass was lost:
-`lost`, `suppressed` — both empty at quiescence). -/
+carried, or in the touched set of a call suspended in its header read; `Owed` also mentions the
+ghost sets `lost` and `suppressed`, which are empty in every reachable state: `C07_fixed`). -/
 theorem C10_invariant (n m : Nat) (evs : List Ev) (hx v : Nat)
     (hl : lookup hx (run {} (init n m) evs).cache = some v) :
     v = confOf (run {} (init n m) evs) hx ∨ Owed (run {} (init n m) evs) hx :=
@@ -38,16 +39,18 @@ theorem C10_fresh (n m : Nat) (evs : List Ev) (hq : Quiet (run {} (init n m) evs
         Quiet (run {} (run {} (init n m) evs) [.getHistory s hx, .readDo 0, .readFinish 0]) ∧
         (run {} (run {} (init n m) evs) [.getHistory s hx, .readDo 0, .readFinish 0]).conf =
           (run {} (init n m) evs).conf) := by
-  refine ⟨(quiescent_current _ (inv_run _ evs (inv_init n m)) hq).2, ?_⟩
+  have hF := fix_run {} rfl rfl rfl rfl rfl _ evs (inv_init n m) (fixInv_init n m)
+  refine ⟨(quiescent_current _ (inv_run _ evs (inv_init n m)) hq hF.nolost hF.nosupp).2, ?_⟩
   intro s hx hl
-  obtain ⟨h1, h2, h3, h4, h5, h6, h7⟩ := hq
-  generalize run {} (init n m) evs = st at h1 h2 h3 h4 h5 h6 h7 hl
+  obtain ⟨h1, h2, h5, h6, h7⟩ := hq
+  clear hF
+  generalize run {} (init n m) evs = st at h1 h2 h5 h6 h7 hl
   have key : run {} st [.getHistory s hx, .readDo 0, .readFinish 0] =
       { st with tasks := [], cache := put hx (confOf st hx) st.cache } := by
     simp [run, step, startRead, hl, h6, nthIdx, modifyAt, resume]
     rfl
   rw [key]
-  exact ⟨by simp [lookup_put], ⟨h1, h2, h3, h4, h5, rfl, h7⟩, rfl⟩
+  exact ⟨by simp [lookup_put], ⟨h1, h2, h5, rfl, h7⟩, rfl⟩
 
 /-- every performed read that `limited_history` accepts (no notification since it was started)
 is of a version that is current or whose change is still in the carrier — in every reachable
